@@ -245,7 +245,7 @@ impl CommandAnalyzer {
 
     /// Build an index of type definitions from an AST
     fn index_type_definitions(&mut self, ast: &syn::File, file_path: &Path) {
-        for item in &ast.items {
+        for item in Self::items_with_inline_modules(&ast.items) {
             match item {
                 syn::Item::Struct(item_struct) => {
                     if self.struct_parser.should_include_struct(item_struct) {
@@ -264,6 +264,28 @@ impl CommandAnalyzer {
                 _ => {}
             }
         }
+    }
+
+    /// The items of a file followed by the items of its inline modules (`mod models { .. }`),
+    /// outermost first. Types may be declared in such a module; test modules are left out.
+    fn items_with_inline_modules(items: &[syn::Item]) -> Vec<&syn::Item> {
+        let mut all: Vec<&syn::Item> = items.iter().collect();
+        let mut next = 0;
+        while next < all.len() {
+            if let syn::Item::Mod(item_mod) = all[next] {
+                let is_test_module = item_mod.attrs.iter().any(|attr| {
+                    attr.path().is_ident("cfg")
+                        && attr
+                            .parse_args::<syn::Ident>()
+                            .is_ok_and(|ident| ident == "test")
+                });
+                if let (Some((_, inner)), false) = (&item_mod.content, is_test_module) {
+                    all.extend(inner.iter());
+                }
+            }
+            next += 1;
+        }
+        all
     }
 
     /// Lazily resolve types using the dependency graph
@@ -334,7 +356,7 @@ impl CommandAnalyzer {
         type_name: &str,
         file_path: &Path,
     ) -> Option<StructInfo> {
-        for item in &ast.items {
+        for item in Self::items_with_inline_modules(&ast.items) {
             match item {
                 syn::Item::Struct(item_struct) => {
                     if item_struct.ident == type_name
